@@ -114,6 +114,17 @@ def stripDflt : V κ σ → V κ σ
 
 end V
 
+inductive Err where
+  | notMapping     -- `.items()` on something that is not a mapping (AttributeError)
+  | badSection     -- section name does not match `SECTION_NAME_PATTERN` (ValueError / TypeError)
+  | missingStd     -- C++: no `std` option (ValueError)
+  | unhashable     -- C++: `std` is a list / mapping (TypeError)
+  | groupNotMapping -- C++: `defaults[std]` is not a mapping (`dict.update` raises)
+  | missingCtor    -- C++: no `ctor_convention` (ValueError)
+  | badCtor        -- C++: unknown constructor convention (ValueError)
+  | allocatorRequired -- C++: non-default convention without allocator_type (ValueError)
+  deriving DecidableEq, Repr
+
 /-- `DefaultValue.assign_to_if_not_default(target, key, value)`:
 a default-marked `value` is *not* assigned when `target[key]` exists and is not default-marked;
 everything else (KeyError, explicit value, default over default) assigns. -/
@@ -147,6 +158,13 @@ def deepUpdate (t : V κ σ) (s : M κ σ) : V κ σ :=
   match t with
   | .map tm => .map (mergeInto tm s)
   | _ => .map s
+
+/-- `deep_update(target, source)` for two arbitrary values: a source that is not a mapping has no
+`.items()` (AttributeError) when the target is a mapping, and is returned (copied) otherwise. -/
+def deepUpdateAny (t s : V κ σ) : Except Err (V κ σ) :=
+  match s with
+  | .map sm => .ok (deepUpdate t sm)
+  | _ => if t.isMap then .error .notMapping else .ok s
 
 /-- What one source entry `(k, v)` does to the target (the body of the `for` loop). -/
 def step (tm : M κ σ) (k : κ) (v : V κ σ) : M κ σ :=
@@ -237,17 +255,6 @@ def M.size : M κ σ → Nat
 end
 
 /-! ### `LanguageConfig` -/
-
-inductive Err where
-  | notMapping     -- `.items()` on something that is not a mapping (AttributeError)
-  | badSection     -- section name does not match `SECTION_NAME_PATTERN` (ValueError / TypeError)
-  | missingStd     -- C++: no `std` option (ValueError)
-  | unhashable     -- C++: `std` is a list / mapping (TypeError)
-  | groupNotMapping -- C++: `defaults[std]` is not a mapping (`dict.update` raises)
-  | missingCtor    -- C++: no `ctor_convention` (ValueError)
-  | badCtor        -- C++: unknown constructor convention (ValueError)
-  | allocatorRequired -- C++: non-default convention without allocator_type (ValueError)
-  deriving DecidableEq, Repr
 
 /-- `LanguageConfig.update_section(name, data)`:
 `self._sections[name] = deep_update(self._sections.get(name, {}), data)`. -/
@@ -369,5 +376,59 @@ def checkCtor (ctorKey allocKey : κ) (ctor : V κ σ → Option Bool) (falsy : 
       match options.get allocKey with
       | none => .error .allocatorRequired
       | some a => if falsy a then .error .allocatorRequired else .ok options
+
+
+/-- Names and scalar tests used by the C++ language class. -/
+structure CppKeys (κ σ : Type) where
+  options : κ
+  defaults : κ
+  std : κ
+  ctor : κ
+  alloc : κ
+  nameKey : σ → κ
+  ctorOf : V κ σ → Option Bool
+  falsy : V κ σ → Bool
+
+/-- `Language.__init__` of the C++ language on its own section:
+`defaults = get_config_value_as_dict(section, "defaults", {})`,
+`options = get_config_value_as_dict(section, "options", {})` (the `dict` object held by the configuration —
+`_validate_language_options` updates it in place; a missing / non-dict `options` yields a fresh `{}` which
+has no `std`).  Returns the section as it is afterwards. -/
+def cppValidateSection (K : CppKeys κ σ) (sec : M κ σ) : Except Err (M κ σ) :=
+  let defaults := match sec.get K.defaults with
+    | some (.map d) => d
+    | _ => .nil
+  match sec.get K.options with
+  | some (.map o) =>
+    (match applyStdDefaults K.std K.nameKey defaults o with
+     | .error e => .error e
+     | .ok o' =>
+       match checkCtor K.ctor K.alloc K.ctorOf K.falsy o' with
+       | .error e => .error e
+       | .ok _ => .ok (sec.set K.options (.map o')))
+  | _ => .error .missingStd
+
+/-- `Language.__init__` of the Python language on its own section: `_validate_language_options` sets
+`options["enable_serialization_asserts"] = True` on the `dict` held by the configuration (a missing /
+non-dict `options` yields a fresh `{}` that is not stored). -/
+def pyValidateSection (optionsKey assertsKey : κ) (tru : V κ σ) (sec : M κ σ) : M κ σ :=
+  match sec.get optionsKey with
+  | some (.map o) => sec.set optionsKey (.map (o.set assertsKey tru))
+  | _ => sec
+
+/-- `_resolve_target_language` without an explicit language: the first section whose `extension` equals
+the `extension` override, else the default language.  `eq` is Python's `==` on the two values. -/
+def firstWithExt (extKey : κ) (eq : V κ σ → V κ σ → Bool) (ext : V κ σ) : M κ σ → Option κ
+  | .nil => none
+  | .cons name (.map sec) rest =>
+    (match sec.get extKey with
+     | some e => if eq e ext then some name else firstWithExt extKey eq ext rest
+     | none => firstWithExt extKey eq ext rest)
+  | .cons _ _ rest => firstWithExt extKey eq ext rest
+
+def resolveLang (extKey dflt : κ) (eq : V κ σ → V κ σ → Bool) (config overrides : M κ σ) : κ :=
+  match overrides.get extKey with
+  | none => dflt
+  | some ext => (firstWithExt extKey eq ext config).getD dflt
 
 end NunavutVerif.Config
